@@ -186,14 +186,14 @@ theorem keepSet_sub_ids {cfg : Cfg} {g : G} {d x : String} (h : x ∈ keepSet cf
   rcases h with ((⟨n, ⟨hn, _⟩, rfl⟩ | ⟨n, ⟨hn, _⟩, rfl⟩) | h) | h
   · exact List.mem_map.2 ⟨n, hn, rfl⟩
   · exact List.mem_map.2 ⟨n, hn, rfl⟩
-  · rcases mem_pairIds.1 h with ⟨⟨n, k⟩, hp, h | h⟩ <;> simp only at h <;> subst h <;>
-      rcases mem_linkPairs.1 hp with ⟨c0, _, t, _, hfs⟩
-    · exact hasCls_mem_ids (mem_firstHop.1 (mem_firstSecond.1 hfs).1).2
-    · exact hasCls_mem_ids (secondHop_sound (mem_firstSecond.1 hfs).2).2.1
-  · rcases mem_pairIds.1 h with ⟨⟨n, k⟩, hp, h | h⟩ <;> simp only at h <;> subst h <;>
+  · rcases mem_pairIds.1 h with ⟨p, hp, h | h⟩ <;> subst h <;>
+      rcases linkPairs_sound hp with ⟨c0, _, t, _, hfs⟩
+    · exact firstSecond_fst_mem_ids hfs
+    · exact firstSecond_snd_mem_ids hfs
+  · rcases mem_pairIds.1 h with ⟨p, hp, h | h⟩ <;> subst h <;>
       rcases mem_ownerPairs.1 hp with ⟨c0, _, t, _, hfs⟩
-    · exact hasCls_mem_ids (mem_firstHop.1 (mem_firstSecond.1 hfs).1).2
-    · exact hasCls_mem_ids (secondHop_sound (mem_firstSecond.1 hfs).2).2.1
+    · exact firstSecond_fst_mem_ids hfs
+    · exact firstSecond_snd_mem_ids hfs
 
 /-- one iteration, on a store whose ARM is still the graph read at the start and with a graph id
 other than the ARM's: the generated graph is exactly `genAdm` -/
